@@ -1,14 +1,16 @@
 /-
-  Acceptor of the harness family `gen`: differential validation of the three source-to-Lean translators
-  translate/levels_to_lean.py, translate/hashstream_to_lean.py and translate/counterarray_to_lean.py.
+  Acceptor of the harness family `gen`: differential validation of the source-to-Lean translators
+  translate/levels_to_lean.py, translate/hashstream_to_lean.py, translate/counterarray_to_lean.py and
+  translate/nodeheaders_to_lean.py.
 
   Every record of the transcript is an observation of the REAL inline functions of forest_levels.h /
   defines.h / hash_stream.h / arrays.h (and of arrays.cc in the library) as compiled into the harness; it is
   recomputed here with the GENERATED definitions of `MeddlyModel/Gen/Levels.lean`,
-  `MeddlyModel/Gen/HashStream.lean` and `MeddlyModel/Gen/CounterArray.lean` and compared.
+  `MeddlyModel/Gen/HashStream.lean`, `MeddlyModel/Gen/CounterArray.lean` and `MeddlyModel/Gen/NodeHeaders.lean`
+  and compared.
   (It deliberately imports ONLY the generated files, not Props/Levels.lean / Props/HashStreamGen.lean /
-  Props/CounterArrayGen.lean nor the hand-written models: when a header changes so that the proofs break,
-  this differential run still works and tells whether the translation is faithful.)
+  Props/CounterArrayGen.lean / Props/NodeHeadersGen.lean nor the hand-written models: when a header changes so that
+  the proofs break, this differential run still works and tells whether the translation is faithful.)
 
   Grammar (one record per line; all numbers in decimal, levels signed, words unsigned 32 bit):
 
@@ -30,6 +32,18 @@
                                  replayed with `Gen.CounterArray.step`; entry_bits with `Gen.CounterArray.entry_bits`
     gc watched -> e:<old>:<new> s:<old>:<new> ... | -      the watcher's calls so far = the ghost member `watched`
 
+    nh forest <0|1>              a fresh forest (1: node_headers::pessimistic): every handle free
+    nh adopt <h> <lvl> <in> <cc> after createReducedNode (NOT translated): the observed header of h replaces the model's
+    nh kids <h> <k1> .. <kn>     the children of the new node h
+    nh link <h> -> <ret> <A|D|F> <in> <cc>   |   nh unlink|cache|uncache <h> -> <A|D|F> <in> <cc>
+                                 one call of forest::linkNode / unlinkNode / cacheNode / uncacheNode, replayed with
+                                 `Gen.NodeHeaders.linkNode` .. on the header of h (class: A level ≠ 0, D level 0 and cache
+                                 count > 0, F otherwise).  Every `deleteNode` EVENT of the generated code is followed by the
+                                 generated `unlinkNode` on each child of the deleted node (what forest::deleteNode does),
+                                 recursively.                                                       kind=gen-nh
+    nh also <h> -> <A|D|F> <in> <cc>         another handle whose header changed during the call     kind=gen-nh-cascade
+    nh end -> <n>                            number of other handles changed during the call         kind=gen-nh-frame
+
   A level record whose arguments violate the generated `<fn>_defined` predicate (the model says the C++ call
   has undefined behaviour) is reported as kind=gen-lv-undefined; a hash record on which a generated function
   returns `.error .ub` as `expected=ub`, `.error .thrown` as `expected=throw <code>`.
@@ -38,6 +52,7 @@ import MeddlyModel.Basic.Report
 import MeddlyModel.Gen.Levels
 import MeddlyModel.Gen.HashStream
 import MeddlyModel.Gen.CounterArray
+import MeddlyModel.Gen.NodeHeaders
 
 namespace Meddly.GenAccept
 
@@ -175,10 +190,98 @@ def showWatched (l : List (Bool × Nat × Nat)) : String :=
 
 end CA
 
+/-! ### node_headers: the generated lifetime logic on a table of headers -/
+
+namespace NH
+open Gen.NodeHeaders
+
+structure Entry where
+  st : State
+  kids : List Int := []
+
+structure Tab where
+  pess : Bool
+  ents : Array Entry := #[]
+
+/-- the header of a handle that was never used / has been recycled, in the reference-counting configuration -/
+def freeHdr (pess : Bool) : State :=
+  { levels := some 0, cache_counts := some 0, is_in_cache := none, incoming_counts := some 0, is_reachable := none,
+    pessimistic := pess, events := [] }
+
+def Tab.get (t : Tab) (h : Nat) : Entry := t.ents.getD h { st := freeHdr t.pess }
+
+def Tab.set (t : Tab) (h : Nat) (e : Entry) : Tab :=
+  let ents := if h < t.ents.size then t.ents else t.ents ++ Array.replicate (h + 1 - t.ents.size) { st := freeHdr t.pess }
+  { t with ents := ents.set! h e }
+
+def obs (g : State) : String :=
+  let lvl := g.levels.getD 0
+  let cc := g.cache_counts.getD 0
+  let cls := if lvl ≠ 0 then "A" else if cc ≠ 0 then "D" else "F"
+  s!"{cls} {g.incoming_counts.getD 0} {cc}"
+
+def errName : Err → String
+  | .ub => "ub"
+  | .unmodelled => "unmodelled"
+
+/-- one generated call on handle `h`: the new table, the value returned by linkNode, the events of the call -/
+def call (t : Tab) (h : Int) (op : Op) : Except Err (Tab × Int × List Event) :=
+  let e := if h < 1 then { st := freeHdr t.pess } else t.get h.toNat
+  let g := { e.st with events := [] }
+  let r : Except Err (State × Int) := match op with
+    | .link => linkNode g h
+    | .unlink => (unlinkNode g h).map fun g' => (g', h)
+    | .cache => (cacheNode g h).map fun g' => (g', h)
+    | .uncache => (uncacheNode g h).map fun g' => (g', h)
+  match r with
+  | .error err => .error err
+  | .ok (g', ret) =>
+    let deleted := g'.events.contains (Event.deleteNode h)
+    let t' := if h < 1 then t else
+      t.set h.toNat { st := { g' with events := [] }, kids := if deleted then [] else e.kids }
+    .ok (t', ret, g'.events)
+
+/-- what forest::deleteNode(p) does besides the header of p: `unlinkNode` on every child, recursively -/
+def cascade : Nat → Tab → List Int → List Nat → Except Err (Tab × List Nat)
+  | _, t, [], touched => .ok (t, touched)
+  | 0, _, _ :: _, _ => .error .unmodelled
+  | f + 1, t, c :: wl, touched =>
+    let kids := if c < 1 then [] else (t.get c.toNat).kids
+    match call t c .unlink with
+    | .error e => .error e
+    | .ok (t', _, evs) =>
+      let ks := if evs.contains (Event.deleteNode c) then kids else []
+      cascade f t' (ks ++ wl) (if c < 1 then touched else c.toNat :: touched)
+
+/-- a whole API call: the call on h, then the cascade; -> (table, "<ret> <obs of h>", number of OTHER handles changed) -/
+def apiCall (t : Tab) (h : Int) (op : Op) : Except Err (Tab × String × Nat) :=
+  let kids := if h < 1 then [] else (t.get h.toNat).kids
+  match call t h op with
+  | .error e => .error e
+  | .ok (t1, ret, evs) =>
+    let ks := if evs.contains (Event.deleteNode h) then kids else []
+    match cascade 1000000 t1 ks [] with
+    | .error e => .error e
+    | .ok (t2, touched) =>
+      let others := touched.eraseDups.filter fun c => c != h.toNat && obs (t.get c).st != obs (t2.get c).st
+      let o := obs (t2.get h.toNat).st
+      .ok (t2, (match op with | .link => s!"{ret} {o}" | _ => o), others.length)
+
+def op? : String → Option Op
+  | "link" => some .link
+  | "unlink" => some .unlink
+  | "cache" => some .cache
+  | "uncache" => some .uncache
+  | _ => none
+
+end NH
+
 /-! ### the line loop -/
 
 structure St where
   ca : Option Gen.CounterArray.State := none      -- the counter_array of the current `gc new`
+  nh : Option NH.Tab := none                      -- the header table of the current `nh forest`
+  nhOthers : Nat := 0                             -- handles other than the touched one changed by the last nh call
   rep : Report := {}
   line : Nat := 0
   cur : Option String := none      -- current case
@@ -234,6 +337,47 @@ def St.checkCa (s : St) (args : List String) (got : String) : St :=
             | .error e => CA.errName e
           { s with ca := some g', rep := s.rep.bump "gc.calls" }.check "gen-gc" input (some s!"{r} {bits}") got
 
+def St.checkNh (s : St) (args : List String) (got : String) : St :=
+  let input := joinSp args
+  match s.nh with
+  | none => s.diff "gen-nh" s!"input=[{input}] record before `nh forest`"
+  | some t =>
+    match args with
+    | ["end"] => { s with nhOthers := 0, rep := s.rep.bump "nh.end" }.check "gen-nh-frame" input (some (toString s.nhOthers)) got
+    | ["also", h] =>
+      match h.toNat? with
+      | none => s.diff "gen-nh-cascade" s!"malformed-record args=[{input}] got=[{got}]"
+      | some h => { s with rep := s.rep.bump "nh.also" }.check "gen-nh-cascade" input (some (NH.obs (t.get h).st)) got
+    | [op, h] =>
+      match NH.op? op, h.toInt? with
+      | some o, some h =>
+        let s := { s with rep := s.rep.bump "nh.calls" }
+        match NH.apiCall t h o with
+        | .error e => s.check "gen-nh" input (some (NH.errName e)) got
+        | .ok (t', exp, others) => { s with nh := some t', nhOthers := others }.check "gen-nh" input (some exp) got
+      | _, _ => s.diff "gen-nh" s!"malformed-record args=[{input}] got=[{got}]"
+    | _ => s.diff "gen-nh" s!"malformed-record args=[{input}] got=[{got}]"
+
+/-- `nh forest p`, `nh adopt h lvl in cc`, `nh kids h k1 .. kn`: no comparison, the model's table is set up -/
+def St.setupNh (s : St) (rest : List String) : Option St :=
+  match rest with
+  | ["forest", p] => if p == "0" ∨ p == "1" then some { s with nh := some { pess := p == "1" }, nhOthers := 0, rep := s.rep.bump "nh.forest" } else none
+  | ["adopt", h, lvl, inc, cc] => do
+      let t ← s.nh
+      let h ← h.toNat?
+      let lvl ← parseInt32? lvl
+      let inc ← inc.toNat?
+      let cc ← cc.toNat?
+      let e := t.get h
+      let st := { NH.freeHdr t.pess with levels := some lvl, incoming_counts := some inc, cache_counts := some cc }
+      some { s with nh := some (t.set h { st := st, kids := if lvl = 0 then [] else e.kids }), rep := s.rep.bump "nh.adopt" }
+  | "kids" :: h :: ks => do
+      let t ← s.nh
+      let h ← h.toNat?
+      let ks ← ks.mapM parseInt32?
+      some { s with nh := some (t.set h { (t.get h) with kids := ks }), rep := s.rep.bump "nh.kids" }
+  | _ => none
+
 def stepRecord (s : St) (kind : String) (args : List String) (got : String) : St :=
   let s := if s.cur.isNone then s.diff kind "record outside case…endcase" else s
   let input := joinSp args
@@ -244,6 +388,7 @@ def stepRecord (s : St) (kind : String) (args : List String) (got : String) : St
   | "hr", [x, k] => { s with rep := s.rep.bump "hr" }.check "gen-hr" input (expRot x k) got
   | "hm", [w, a, b, c] => { s with rep := s.rep.bump ("hm." ++ w) }.check "gen-hm" input (expMix w a b c) got
   | "gc", _ => s.checkCa args got
+  | "nh", _ => s.checkNh args got
   | "hs", init :: spec :: ws =>
       let s := { s with rep := s.rep.bump (if init == "-" then "hs.start0" else "hs.start") }
       s.check "gen-hs" input (expStream init spec ws) got
@@ -272,7 +417,7 @@ def step (s : St) (ln : String) : St :=
         let s := { s with rep := s.rep.bump "cases" }
         { s with cur := some (rest.headD "?") }
     | "endcase" =>
-        if s.cur.isNone then s.diff kind "endcase without case" else { s with cur := none, ca := none }
+        if s.cur.isNone then s.diff kind "endcase without case" else { s with cur := none, ca := none, nh := none }
     | "gc" =>
         if rest == ["new", "0"] ∨ rest == ["new", "1"] then
           let s := if s.cur.isNone then s.diff kind "record outside case…endcase" else s
@@ -281,6 +426,14 @@ def step (s : St) (ln : String) : St :=
           match splitArrow rest with
           | some (args, got) => stepRecord s kind args got
           | none => s.diff kind s!"record without `->`: {ln}"
+    | "nh" =>
+        let s := if s.cur.isNone then s.diff kind "record outside case…endcase" else s
+        match splitArrow rest with
+        | some (args, got) => stepRecord s kind args got
+        | none =>
+          match s.setupNh rest with
+          | some s' => s'
+          | none => s.diff "gen-nh" s!"malformed record: {ln}"
     | _ =>
       if kind ∈ ["lv", "hr", "hm", "hs"] then
         match splitArrow rest with
